@@ -530,7 +530,7 @@ func init() {
 		ID:    "C09",
 		Level: "exploration",
 		Rule: "FastLCSScore / FastLCSEGFScore / D1Or0 executed next to a full-matrix DP with an independent IUPAC table: exhaustively on all ordered pairs of strings over {a,c,g,t} of length <= 4 (quick) / <= 5 (thorough) x bounds -1,0,1,2,3 (D1Or0: length <= 5 / 6), all 16x16 IUPAC symbol pairs, and random pairs up to 400 nt with ambiguity codes, mixed case, bounds d-1, d, d+1 around the true number of differences; reused vs fresh scratch buffer; both argument orders; 2-16 goroutines calling the three kernels at once (fresh and per-goroutine buffers) must get the answers the kernels give alone, also under the race detector. " +
-			"Added later: pairs of 9-65 kb (banded reference, self-checked against the full matrix), the non-letter symbols of joined reads ('.', '-'). " +
+			"Added later: pairs of 9-65 kb (banded reference, self-checked against the full matrix), the non-letter symbols of joined reads ('.', '-'). lcs-medium: dissimilar, nested and block-rearranged pairs of 0.7-2.6 kb against the full matrix, unbounded and with bounds tied to the distance and to the lengths. " +
 			"distinct_nontrivial = distinct (first string, length of second string) classes of non-empty pairs (exhaustive part; the pairs themselves are counted in counters.exhaustive_pairs) + distinct (length class, length difference, true difference count, ambiguity rate) classes (random part)",
 		Assume: []string{"the reference DP (max LCS, then shortest alignment) is the meaning of 'LCS length and shortest alignment achieving it'", "sequences are non-empty, over the IUPAC alphabet plus the symbols '.' and '-' (which match only themselves); the alignment is shorter than 2^16 columns (score and length are packed in one word)"},
 		Subs: []core.Sub{
